@@ -12,6 +12,8 @@ The theorems are about `I2N.Policy` (`Model/Policy.lean`), the very definitions 
 All of them quantify over arbitrary parameter dictionaries, stores, backends and mode strings (no bound).
 `docAction` / `perform` (`Spec/Policy.lean`) are the README table and the meaning of its four actions.
 -/
+set_option linter.unusedSimpArgs false
+
 namespace I2N.Props.C12
 open I2N.Policy I2N.Extracted.Policy
 
